@@ -294,13 +294,18 @@ func strEq(a, b Value) *Term {
 				}
 				return tFalse
 			}
-			// FmtInt vs symbolic bytes: unsupported
+			if t := fmtIntEqBytes(at, bb); t != nil {
+				return t
+			}
 		}
 	}
 	if len(pb) == 1 && pb[0].atom != nil && pb[0].atom.kind == 0 && !(len(pa) == 1 && pa[0].atom != nil) {
 		return strEq(b, a)
 	}
 	if t := strEqAligned(pa, pb); t != nil {
+		return t
+	}
+	if t := strEqWalk(pa, pb); t != nil {
 		return t
 	}
 	// structural comparison of ropes with atoms: identical atom objects at the same positions
@@ -544,4 +549,131 @@ func strEqAligned(pa, pb []SPart) *Term {
 		}
 	}
 	return mkAnd(conj...)
+}
+
+// strEqWalk generalises strEqAligned to ropes whose atoms face literal text: `<!!int <fmtint>>` against `<!!int 0>`.
+// Both ropes are walked in lockstep. Every atom must be delimited in its own rope by concrete non-integer bytes
+// (or the string boundary), so in an equal rope the atom's text is exactly the maximal run of integer characters at
+// that position; when the other rope has concrete bytes there, the atom equals the run's value (or the ropes differ
+// if the run is not a canonical integer). Symbolic bytes inside such a run: not decided here (nil).
+type ropeElem struct {
+	b    *Term
+	atom *Atom
+}
+
+func ropeElems(parts []SPart) []ropeElem {
+	var out []ropeElem
+	for _, p := range parts {
+		switch {
+		case p.atom != nil:
+			out = append(out, ropeElem{atom: p.atom})
+		case p.b != nil:
+			out = append(out, ropeElem{b: p.b})
+		default:
+			for i := 0; i < len(p.lit); i++ {
+				out = append(out, ropeElem{b: mkConst(uint64(p.lit[i]), 8)})
+			}
+		}
+	}
+	return out
+}
+
+func atomsDelimited(es []ropeElem) bool {
+	for i, e := range es {
+		if e.atom == nil {
+			continue
+		}
+		if e.atom.kind != 0 {
+			return false
+		}
+		if i > 0 && (es[i-1].atom != nil || isIntChar(es[i-1].b)) {
+			return false
+		}
+		if i+1 < len(es) && (es[i+1].atom != nil || isIntChar(es[i+1].b)) {
+			return false
+		}
+	}
+	return true
+}
+
+func strEqWalk(pa, pb []SPart) *Term {
+	ea, eb := ropeElems(pa), ropeElems(pb)
+	if !atomsDelimited(ea) || !atomsDelimited(eb) {
+		return nil
+	}
+	var conj []*Term
+	i, j := 0, 0
+	for i < len(ea) && j < len(eb) {
+		x, y := ea[i], eb[j]
+		switch {
+		case x.atom == nil && y.atom == nil:
+			conj = append(conj, mkEq(x.b, y.b))
+			i++
+			j++
+		case x.atom != nil && y.atom != nil:
+			if x.atom.base != y.atom.base {
+				return nil
+			}
+			conj = append(conj, mkEq(x.atom.t, y.atom.t))
+			i++
+			j++
+		default:
+			at, other, k := x.atom, eb, j
+			if at == nil {
+				at, other, k = y.atom, ea, i
+			}
+			run := []byte{}
+			for k < len(other) && other[k].atom == nil && other[k].b.isConst() && isIntChar(other[k].b) {
+				run = append(run, byte(other[k].b.c))
+				k++
+			}
+			if k < len(other) && (other[k].atom != nil || !other[k].b.isConst()) {
+				return nil // the run is followed by something symbolic: its extent is not forced
+			}
+			n, ok := canonicalInt(string(run), at.base)
+			if !ok {
+				return tFalse
+			}
+			conj = append(conj, mkEq(at.t, mkConst(uint64(n), 64)))
+			if x.atom != nil {
+				i++
+				j = k
+			} else {
+				j++
+				i = k
+			}
+		}
+	}
+	if i != len(ea) || j != len(eb) {
+		return tFalse
+	}
+	return mkAnd(conj...)
+}
+
+// fmtIntEqBytes: FormatInt(t, 10) == b0…bn-1 for symbolic bytes, n <= 2: the canonical decimal text of t has
+// exactly n characters and they are these bytes. Longer byte strings: not decided here (nil).
+func fmtIntEqBytes(at *Atom, bs []*Term) *Term {
+	if at.base != 10 || at.t.w != 64 {
+		return nil
+	}
+	c8 := func(v int) *Term { return mkConst(uint64(v), 8) }
+	c64 := func(v int64) *Term { return mkConst(uint64(v), 64) }
+	low := mkExtract(at.t, 7, 0)
+	switch len(bs) {
+	case 0:
+		return tFalse
+	case 1:
+		// 0 <= t <= 9 and b0 = '0'+t
+		return mkAnd(mkBin(OULe, at.t, c64(9)), mkEq(bs[0], mkBin(OAdd, low, c8('0'))))
+	case 2:
+		// 10..99: b0 = '0'+t/10, b1 = '0'+t%10 (8-bit arithmetic on the low byte, valid in this range)
+		pos := mkAnd(mkBin(OULe, c64(10), at.t), mkBin(OULe, at.t, c64(99)),
+			mkEq(bs[0], mkBin(OAdd, mkBin(OUDiv, low, c8(10)), c8('0'))),
+			mkEq(bs[1], mkBin(OAdd, mkBin(OURem, low, c8(10)), c8('0'))))
+		// -9..-1: b0 = '-', b1 = '0'+(-t)
+		neg := mkAnd(mkBin(OSLe, c64(-9), at.t), mkBin(OSLe, at.t, c64(-1)),
+			mkEq(bs[0], c8('-')), mkEq(bs[1], mkBin(OSub, c8('0'), low)))
+		return mkOr(pos, neg)
+	}
+	return nil
 }
